@@ -27,6 +27,7 @@ REQUIRED = ('success, or one of ' + ', '.join(sorted(ASM_EXCEPTIONS)) + ' (not t
 
 # model limits used for the correspondence (see coq/Model/AsmErrors.v, `config`): the generators stay out of the bands in
 # which the real outcome depends on the interpreter's stack / memory state
+EXPR_FRAMES_OF_A_DEEP_TREE = 50     # frames of Expr methods on the stack of a RecursionError caused by a deep expression
 WATCHDOG = 30.0           # seconds per assembly; FIRST_PASS is the limit of the first pass, expiries are re-run at WATCHDOG
 FIRST_PASS = 6.0
 EXPR_LIMIT = 450          # Expr traversals: deeper than this -> RecursionError (real threshold 496..500 at the default limit)
@@ -46,9 +47,18 @@ def build_cases(ctx):
     groups = [
         bg.gen_lexing(rng, ctx.n(60, 400)), bg.gen_syntax(rng, ctx.n(260, 1500)), bg.gen_names(rng, ctx.n(120, 600)),
         bg.gen_layout(rng, ctx.n(176, 880)), bg.gen_range(rng, ctx.n(256, 2048)), bg.gen_arith(rng, ctx.n(360, 2880)),
-        bg.gen_recursion(rng, ctx.n(90, 184)), bg.gen_collisions(rng, ctx.n(76, 304)),
+        bg.gen_recursion(rng, ctx.n(90, 184)), bg.gen_rep_recursion(rng, ctx.n(80, 160)), bg.gen_collisions(rng, ctx.n(76, 304)),
         bg.gen_bigint(rng, ctx.n(760, 2300)), bg.gen_interleave(rng, ctx.n(320, 3200)), layout_family(ctx, ctx.n(260, 2600)), bg.gen_huge(rng, ctx.n(56, 112), mem),
     ]
+    # several assemblies in one process: every distinct step is also assembled alone (an ordinary case)
+    seqs = bg.gen_sequences(rng, ctx.n(150, 1500))
+    solo = {}
+    for sq in seqs:
+        for st in sq['steps']:
+            solo.setdefault(step_key(st), bg.case('seq-solo', st['text'], st['label'], w=st['w'], v=st['v'],
+                                                  max_depth=st['max_depth'], debug=st['debug'], nomodel=True))
+    groups.append(list(solo.values()))
+    ctx.c14_sequences = seqs
     valid = bg.gen_valid(rng, ctx.n(150, 1500))
     groups.append(valid)
     corpus = [(f'nostl{i}', t, False) for i, t in enumerate(bg.NOSTL_SAMPLES)]
@@ -79,6 +89,83 @@ def layout_family(ctx, n):
 
 
 DEBUG_RNG = [None]
+
+
+# ---- sequences: several assemblies in one process -------------------------------------------------------------------------
+
+def step_key(st):
+    return (st['text'], st['w'], st['v'], st['max_depth'], bool(st['debug']))
+
+
+def seq_worker_case(sq, cid):
+    return {'id': cid, 'timeout': WATCHDOG,
+            'seq': [{'w': st['w'], 'v': st['v'], 'stl': False, 'files': [['p.fj', st['text'].encode('utf-8').hex()]],
+                     'max_depth': st['max_depth'], 'debug': st['debug']} for st in sq['steps']]}
+
+
+def outcome_key(o):
+    """what must not depend on what the process did before: the class of the outcome (paths in messages differ)"""
+    return (o['result'], o.get('cls'), o.get('cause'), bool(o.get('catch_all')), real_code(o), bool(o.get('out_exists')),
+            o.get('reader'), o.get('dbg_load'))
+
+
+def judge_sequence(sq, steps_obs, solo_obs):
+    """-> list of (step index, signature, what).  Every step obeys the spec of a single assembly, and its outcome equals
+    the outcome of the same source assembled alone in a fresh process"""
+    res = []
+    for i, (st, o) in enumerate(zip(sq['steps'], steps_obs)):
+        pseudo = {'cls': 'sequence', 'hint': st['label'], 'text': st['text']}
+        for sig, what in judge(pseudo, o):
+            res.append((i, sig, f'step {i + 1} of a sequence in one process: ' + what))
+        alone = solo_obs.get(step_key(st))
+        if alone is None or o['result'] in ('hang', 'crash') or alone['result'] in ('hang', 'crash'):
+            continue
+        if outcome_key(o) != outcome_key(alone):
+            res.append((i, {'kind': 'history-dependent', 'alone': str(alone.get('cls') or alone['result']),
+                            'in_sequence': str(o.get('cls') or o['result']), 'exc': o.get('cause')},
+                        f'step {i + 1} ({st["label"]}) ends differently after the earlier assemblies of the same process than '
+                        f'alone: alone {alone["result"]}/{alone.get("cls")}/{alone.get("cause")}, in sequence '
+                        f'{o["result"]}/{o.get("cls")}/{o.get("cause")} (recursion limit left by the previous step: '
+                        f'{steps_obs[i - 1].get("recursion_limit_after") if i else "n/a"})'))
+    return res
+
+
+def replay_of_sequence(sq, steps_obs, i, alone):
+    return {'sequence': {'steps': sq['steps'], 'hint': sq['hint']}, 'step': i,
+            'observed_steps': [{k: o.get(k) for k in ('result', 'cls', 'cause', 'catch_all', 'frame', 'stage', 'msg', 'out_exists',
+                                                       'reader', 'recursion_limit_after', 'dbg_load')} for o in steps_obs],
+            'observed_alone': None if alone is None else {k: alone.get(k) for k in ('result', 'cls', 'cause', 'catch_all', 'frame', 'msg')},
+            'required': REQUIRED + '; and every assembly of a sequence performed in one process ends like the same assembly alone',
+            'how': 'the steps are flipjump.assemble(...) calls made one after the other in one Python process'}
+
+
+def run_sequences(ctx, cases, obs):
+    seqs = getattr(ctx, 'c14_sequences', [])
+    if not seqs:
+        return
+    solo_obs = {}
+    for c, o in zip(cases, obs):
+        if c['cls'] == 'seq-solo':
+            solo_obs[(c['text'], c['w'], c['v'], c['max_depth'], bool(c['debug']))] = o
+    sobs = run_cases(ctx, [seq_worker_case(sq, f'seq{i}') for i, sq in enumerate(seqs)])
+    found = {}
+    for sq, so in zip(seqs, sobs):
+        for st, o in zip(sq['steps'], so['steps']):
+            ctx.count(('seq', sq['hint'], st['text'], st['w'], st['v']), o['result'] != 'ok')
+            ctx.hist('sequence_step_outcome', ('catch-all<-' + str(o.get('cause'))) if o.get('catch_all') else (o.get('cls') or o['result']))
+            ctx.hist('recursion_limit_after_a_step', o.get('recursion_limit_after'))
+        ctx.hist('sequence_length', len(sq['steps']))
+        for i, sig, what in judge_sequence(sq, so['steps'], solo_obs):
+            k = json.dumps(sig, sort_keys=True)
+            size = sum(len(st['text']) for st in sq['steps'])
+            if k not in found or size < found[k][0]:
+                found[k] = (size, sq, so, i, sig, what)
+    for k in sorted(found):
+        _, sq, so, i, sig, what = found[k]
+        srcs = ' | '.join(repr(st['text'][:60]) + f' (max_recursion_depth={st["max_depth"]})' for st in sq['steps'])
+        ctx.violation(sig, f'{what}; sequence: {srcs[:500]}',
+                      replay_of_sequence(sq, so['steps'], i, solo_obs.get(step_key(sq['steps'][i]))))
+    ctx.coverage['sequences'] = len(seqs)
 
 
 def finish_cases(raw, k0):
@@ -116,7 +203,7 @@ def run_cases(ctx, cases, timeout=WATCHDOG):
     for i, c in enumerate(fast):
         chunks[(i + len(slow)) % nw].append(c)
     chunks = [ch for ch in chunks if ch]
-    keys = ('id', 'w', 'v', 'stl', 'warm', 'files', 'max_depth', 'mem_mb', 'timeout', 'debug')
+    keys = ('id', 'w', 'v', 'stl', 'warm', 'files', 'max_depth', 'mem_mb', 'timeout', 'debug', 'seq')
     payloads = [{'dir': str(ctx.scratch), 'timeout': timeout,
                  'cases': [{k: c[k] for k in keys if k in c} for c in ch]} for ch in chunks]
     outs = fw.run_workers_parallel(ctx, 'asmfail', payloads, timeout=3000)
@@ -160,6 +247,11 @@ def judge(case, obs):
     elif res == 'exception':
         if obs['catch_all']:
             sig = {'kind': 'catch-all', 'exc': obs['cause'], 'stage': obs['stage'], 'frame': obs['frame']}
+            if obs['cause'] == 'RecursionError' and obs.get('expr_frames', 0) < EXPR_FRAMES_OF_A_DEEP_TREE:
+                # the stack overflowed without a deep expression tree on it (F10 is about deep trees): e.g. macro nesting
+                # that costs more Python frames per level than the library's own depth limit accounts for
+                sig['kind'] = 'catch-all-without-deep-expression'
+                sig['macro_frames_over_100'] = obs.get('macro_frames', 0) > 100
             if obs['out_exists']:
                 sig['partial_file'] = True
             v.append((sig, f'catch-all "Unknown exception ... please report this bug" caused by {obs["cause"]} in '
@@ -188,7 +280,8 @@ def replay_of(case, obs):
     r = {'case': {k: case[k] for k in ('cls', 'hint', 'w', 'v', 'stl', 'warm', 'files', 'max_depth', 'debug') if k in case},
          'source': text if isinstance(text, str) else text.decode('latin1'),
          'observed': {k: obs.get(k) for k in ('result', 'cls', 'cause', 'catch_all', 'frame', 'frame_file', 'stage', 'msg',
-                                               'out_exists', 'out_size', 'reader', 'secs', 'debug', 'dbg_exists', 'dbg_load')},
+                                               'out_exists', 'out_size', 'reader', 'secs', 'debug', 'dbg_exists', 'dbg_load',
+                                               'expr_frames', 'macro_frames')},
          'required': REQUIRED,
          'how': 'flipjump.assemble([p.fj], out, memory_width=w, use_stl=stl, fjm_version=FJMVersion(v), print_time=False[, debugging_file_path=out.fjd if debug])'}
     if case.get('mem_mb'):
@@ -574,6 +667,9 @@ def run(ctx):
                         'observed': {k: o[k] for k in ('cls', 'cause', 'frame', 'stage', 'out_exists')}}, limit=6)
     phases['shrink and report'] = round(time.time() - t0, 1)
     t0 = time.time()
+    run_sequences(ctx, cases, obs)
+    phases['sequences'] = round(time.time() - t0, 1)
+    t0 = time.time()
     compare_with_model(ctx, cases, obs)
     phases['model correspondence'] = round(time.time() - t0, 1)
     ctx.coverage['rule'] = (
@@ -589,6 +685,9 @@ def run(ctx):
         'expression-depth, rep-count, pad-count and bit-count limits of the model are parameters; the generators avoid the '
         'bands 400..560 (depth), 2^22..2^36 (rep), 2^24..2^30 (pad) where the real outcome depends on stack/memory state',
         'quick tier runs the resource-exhaustion cases under a 1 GB address-space limit (4 GB in the thorough tier)',
+        'sequences: 2-4 assemblies in one forked process (failures in every stage with small / large max_recursion_depth, '
+        'successes, then a probe with a 100-400 term expression or 100-600 nested macro calls); each step is judged like a '
+        'single case and must end like the same source assembled alone',
         'macro-start labels (":start:") and the debugging-labels file are not modelled (no debugging_file_path is passed)',
     ]
 
@@ -596,6 +695,27 @@ def run(ctx):
 def replay(ctx, path):
     blob = json.loads(open(path).read())
     rp = blob['replay']
+    if 'sequence' in rp:
+        sq = rp['sequence']
+        so = run_cases(ctx, [seq_worker_case(sq, 'replayseq')])[0]
+        st = sq['steps'][rp['step']]
+        alone = run_cases(ctx, [dict(bg.case('seq-solo', st['text'], st['label'], w=st['w'], v=st['v'], max_depth=st['max_depth'],
+                                             debug=st['debug']), id='replaysolo', warm=False,
+                                     files=[['p.fj', st['text'].encode('utf-8').hex()]])])[0]
+        print(f'[C14] replay of {path}: {len(sq["steps"])} assemblies in one process')
+        for j, (s1, o1) in enumerate(zip(sq['steps'], so['steps'])):
+            print(f'  step {j + 1}: w={s1["w"]} version={s1["v"]} max_recursion_depth={s1["max_depth"]} source={s1["text"][:120]!r}')
+            print(f'          -> {o1["result"]} {o1.get("cls")} cause={o1.get("cause")} catch_all={o1.get("catch_all")} '
+                  f'recursion limit afterwards={o1.get("recursion_limit_after")}')
+        print(f'  step {rp["step"] + 1} alone in a fresh process -> {alone["result"]} {alone.get("cls")} cause={alone.get("cause")}')
+        print(f'  required: {REQUIRED}; and every step ends like the same assembly alone')
+        v = judge_sequence(sq, so['steps'], {step_key(st): alone})
+        if v:
+            for i, sig, what in v:
+                print(f'  VIOLATION reproduced: {what}  signature={json.dumps(sig, sort_keys=True)}')
+            return 1
+        print('  the spec holds on this sequence now')
+        return 0
     if 'case' not in rp:
         print(f'[C14] replay: {blob["what"]}\n{json.dumps(rp)[:3000]}')
         return 1
